@@ -197,7 +197,10 @@ def law_sweep(ctx, atm):
     law("lapse-bounds", ok & ((lapse <= 0) | (lapse > gd * (1 + 1e-12))), [p, T], "0 < lapse <= g/cp")
     wsat = atm.vmr2mixing_ratio(atm.e_eq_water_mk(T) / p)
     b = constants.heat_of_vaporization ** 2 / (constants.isobaric_mass_heat_capacity * constants.gas_constant_water_vapor * T ** 2)
-    law("lapse-limit", ok & (np.abs(lapse - gd) > gd * b * wsat * (1 + 1e-9)), [p, T], "|lapse - g/cp| <= (g/cp) b w")
+    # the law is over the reals; `lapse` carries a few ulps of rounding relative to g/cp, which dominates the
+    # right-hand side when the saturation mixing ratio is ~1e-20 (T near 100 K): allow 16 ulp of g/cp absolutely
+    law("lapse-limit", ok & (np.abs(lapse - gd) > gd * b * wsat * (1 + 1e-9) + 16 * np.finfo(float).eps * gd), [p, T],
+        "|lapse - g/cp| <= (g/cp) b w")
     return out, 6 * x.size + 6 * w.size + 12 * T.size
 
 
